@@ -27,7 +27,7 @@ CTXS = [[], [], [], [], [], [], [], [], ["numpy.einsum"], ["numpy.numpylike"], [
 # ------------------------------------------------------------------------------------------------
 # pool of descriptors (a pure function of the master seed and the pool size)
 # ------------------------------------------------------------------------------------------------
-ALIAS_KINDS = ["space", "kworder", "kw-float", "kw-npint", "kw-npfloat", "kw-bool", "kw-0d-int", "kw-0d-float", "neighbour", "tensor-factory", "tensor-factory-varkw", "tensor-factory-name", "tensor-dtype", "tensor-scalar"]
+ALIAS_KINDS = ["space", "kworder", "kw-float", "kw-npint", "kw-npfloat", "kw-bool", "kw-0d-int", "kw-0d-float", "kw-seq-tuple", "kw-seq-array", "kw-seq-array-float", "neighbour", "tensor-factory", "tensor-factory-varkw", "tensor-factory-name", "tensor-dtype", "tensor-scalar"]
 
 
 def applicable_alias_kinds(d):
@@ -42,6 +42,8 @@ def applicable_alias_kinds(d):
             out.append("kw-bool")
     if num_kw:
         out.append("neighbour")
+    if any(isinstance(v, list) for v in d["kw"].values()):
+        out += ["kw-seq-tuple", "kw-seq-array", "kw-seq-array-float"]
     nd = [t for t in d["tensors"] if "shape" in t]
     if nd:
         out += ["tensor-factory", "tensor-factory-varkw", "tensor-factory-name", "tensor-dtype"]
@@ -62,6 +64,11 @@ def make_alias(r, d, kind):
         if list(dict(items)) == list(d["kw"]):
             items = items[::-1]
         d["kw"] = dict(items)
+    elif kind.startswith("kw-seq"):
+        k = r.choice(sorted(k for k, v in d["kw"].items() if isinstance(v, list)))
+        v = d["kw"][k]
+        d["kw"][k] = {"kw-seq-tuple": {"tuple": list(v)}, "kw-seq-array": {"nd": {"shape": [len(v)], "dtype": "int64", "data": list(v)}},
+                      "kw-seq-array-float": {"nd": {"shape": [len(v)], "dtype": "float64", "data": [float(x) for x in v]}}}[kind]
     elif kind.startswith("kw-"):
         ks = [k for k in int_kw if d["kw"][k] in (0, 1)] if kind == "kw-bool" else int_kw
         k = r.choice(ks)
